@@ -38,6 +38,33 @@ def firmware_obj(run, rel, name, extra_flags=()):
                includes=[SHIM, LIBOSMO_INC, TOP_INC], idirafter=[FW_INC])
 
 
+def firmware_objs_for(run, primary_rel, funcs, name, extra_flags=()):
+    """the objects of the firmware source files that DEFINE the given public functions: the file that holds them in the
+    unchanged tree (`primary_rel`) plus, where a function has been moved to another file of the same directory, that file
+    too (a split of one .c file into two must not change what the harness links)"""
+    import re
+    base = os.path.join(vf.REPO, "src/target/firmware")
+    d = os.path.dirname(primary_rel)
+
+    def defines(path, f):
+        try:
+            txt = re.sub(r"/\*.*?\*/", "", open(path, errors="replace").read(), flags=re.S)
+        except OSError:
+            return False
+        return re.search(r"^[A-Za-z_][^;{}()]*\b%s\s*\([^;{}]*\)\s*\{" % re.escape(f), txt, re.M) is not None
+    rels = [primary_rel]
+    prim = os.path.join(base, primary_rel)
+    for f in funcs:
+        if defines(prim, f):
+            continue
+        for fn in sorted(os.listdir(os.path.join(base, d))):
+            rel = os.path.join(d, fn)
+            if fn.endswith(".c") and rel not in rels and defines(os.path.join(base, rel), f):
+                rels.append(rel)
+                break
+    return [firmware_obj(run, rel, "%s_%d" % (name, i) if i else name, extra_flags=extra_flags) for i, rel in enumerate(rels)]
+
+
 def libosmocore_obj(run, rel, name, extra_flags=()):
     return obj(run, os.path.join(vf.REPO, "src/shared/libosmocore/src", rel), name,
                flags=list(extra_flags),
